@@ -1576,6 +1576,10 @@ class Dosini(object):
                     assert isinstance(key, string_types + (float, int, bool,))
                     value = status[stage_index][key]
 
+                    if value is None:
+                        # VV: the loader stores None for an option that the section does not define (e.g. stage-weight)
+                        continue
+
                     if isinstance(value, string_types) is False and isinstance(value, list):
                         value = ' '.join(value)
                     elif isinstance(value, (float, int, bool )):
